@@ -335,22 +335,45 @@ def _judge(case, obs):
     return fail, nt, sorted(set(ev))
 
 
-def run_case(ctx, case):
+_FAILED_BEFORE = [False]     # per process: has run_case already reported a failure?
+
+
+def _once(ctx, case, text):
     ex = ctx.executor(case["cfg"])
+    n = getattr(ex, "_c13n", 0) + 1
+    fresh = n >= RECYCLE or ex.p is None
+    ex._c13n = 1 if fresh else n
+    obs = ex.run(text, fresh=fresh)
+    fail, nt, ev = _judge(case, obs)
+    if fail:
+        ex.close()                        # the executor leaves after reporting a failed check
+    return Result(fail, nt, ev, obs)
+
+
+def run_case(ctx, case):
+    """One execution per repetition.  On a tree where the property holds no execution ever fails, so what
+    follows a failure cannot raise a false alarm: the first failure a process sees is reported as it is;
+    afterwards (Hypothesis is shrinking then) a case only counts as failing if it fails in at least 2 of up
+    to 5 executions, so that the shrinker does not walk into a variant that fails once in a thousand runs
+    and cannot be confirmed.  Confirmation (core, fresh process) is again 'fails at least once in 20'."""
     text = encode(case)
-    reps = int(case.get("rep", 1))
     res = None
-    for _ in range(reps):
-        n = getattr(ex, "_c13n", 0) + 1
-        fresh = n >= RECYCLE or ex.p is None
-        ex._c13n = 1 if fresh else n
-        obs = ex.run(text, fresh=fresh)
-        fail, nt, ev = _judge(case, obs)
-        if fail:
-            ex.close()                    # the executor leaves after reporting a failed check
-            return Result(fail, nt, ev, obs)
-        if res is None or (nt and not res.nontrivial):
-            res = Result(None, nt, ev, obs)
+    for _ in range(int(case.get("rep", 1))):
+        r = _once(ctx, case, text)
+        if r.fail:
+            if not _FAILED_BEFORE[0]:
+                _FAILED_BEFORE[0] = True
+                return r
+            again = 0
+            for _k in range(4):
+                if _once(ctx, case, text).fail:
+                    again += 1
+                    break
+            if again:
+                return r
+            r = Result(None, r.nontrivial, r.events + ["failed-once-not-again-while-shrinking"], r.obs)
+        if res is None or (r.nontrivial and not res.nontrivial):
+            res = r
     return res
 
 
